@@ -33,6 +33,9 @@ type verifNet struct {
 	Unprotects []peer.ID
 	Delegate   network.Receiver
 	Connects   int
+	// Hook, if set, runs once inside the next SendMessage (what the application does while a
+	// message is being written to the network)
+	Hook func()
 }
 
 func (n *verifNet) Protect(id peer.ID, tag string) { n.Protects = append(n.Protects, id) }
@@ -41,6 +44,10 @@ func (n *verifNet) Unprotect(id peer.ID, tag string) bool {
 	return false
 }
 func (n *verifNet) SendMessage(ctx context.Context, p peer.ID, m datatransfer.Message) error {
+	if h := n.Hook; h != nil {
+		n.Hook = nil
+		h()
+	}
 	if n.MayFail && zz.Bool("net.sendFails") {
 		n.Failed++
 		return zz.Error("net.sendErr")
